@@ -3,12 +3,11 @@ against the REAL runtime classes (type-stripped codegen-v2.ts) + property oracle
 import vcheck
 
 PID = "C12"
-MODULES = ["BeffVerif.Props.C12"]
+MODULES = ["BeffVerif.Props.C12", "BeffVerif.Props.C12Nonempty"]
 AUDIT = "BeffVerif/Audit/C12.lean"
 TAGS = ("c12.",)
 HYP = {"NoEmptyIntersection": "D30"}
 OPEN = [
-    "report_nonempty (validate false ⇒ at least one error) for all constructors under noEmptyIntersection — not yet proved in Lean (witness for the excluded shape proved); covered by correspondence + oracle",
     "paths_resolve / received_is_value_at_path — stated in DESIGN.md, not yet proved; evaluated by the JS oracle on every rejected value",
 ]
 RULE = ("same request stream as C03; for every rejected value the oracle checks 1 ≤ #errors ≤ 10, every (nested) path resolves in the input or names a "
